@@ -58,6 +58,11 @@ def run_probes(entry, root, probes, dtype):
 
 
 def serve():
+    import os
+
+    proto = os.fdopen(os.dup(1), "w")     # protocol channel; fd 1 goes to stderr so that library prints cannot corrupt it
+    os.dup2(2, 1)
+    sys.stdout = sys.stderr
     from . import core, zoo
 
     torch = core.boot()
@@ -80,8 +85,14 @@ def serve():
             ans = {"results": run_probes(entry, root, job["probes"], dtype)}
         except Exception as ex:   # noqa: BLE001
             ans = {"error": "%s: %s" % (type(ex).__name__, str(ex)[:300])}
-        sys.stdout.write(json.dumps(ans) + "\n")
-        sys.stdout.flush()
+        proto.write(json.dumps(ans) + "\n")
+        proto.flush()
+
+
+def core_error(msg):
+    from .core import HarnessError
+
+    return HarnessError(msg)
 
 
 class Client:
@@ -99,11 +110,17 @@ class Client:
             env = dict(os.environ, PYTHONHASHSEED="90210", OMP_NUM_THREADS="1", MKL_NUM_THREADS="1")
             self.proc = subprocess.Popen([sys.executable, os.path.join(root, "check"), "--restart-server"],
                                          stdin=subprocess.PIPE, stdout=subprocess.PIPE, stderr=subprocess.DEVNULL, env=env, cwd=root)
+        import select
+
         self.proc.stdin.write((json.dumps(job) + "\n").encode())
         self.proc.stdin.flush()
+        ready, _, _ = select.select([self.proc.stdout], [], [], 300)
+        if not ready:
+            self.proc.kill()
+            raise core_error("restart server did not answer within 300 s")
         line = self.proc.stdout.readline()
         if not line:
-            raise RuntimeError("restart server died")
+            raise core_error("restart server died")
         return json.loads(line)
 
     def close(self):
